@@ -34,7 +34,18 @@ class AgentDied(Exception):
         self.stderr = stderr
 
 
-def agent_binary():
+# 'fallback': the portability branches of wasi.c that a host without <sys/uio.h> / strndup takes (its own readv / writev loops over
+# read / write, its own strndup) - same observable behaviour required
+FALLBACK_DEFS = [d for d in WASI_DEFS if not d.startswith('-DHAS_SYSUIO') and not d.startswith('-DHAS_STRNDUP')] + \
+    ['-DHAS_SYSUIO=0', '-DHAS_STRNDUP=0']
+
+
+def agent_binary(variant='default'):
+    if variant == 'fallback':
+        return cexec.build_unit('wasiagent.c', 'wasiagent-fallback', AGENT_CMD + FALLBACK_DEFS,
+                                extra_args=[os.path.join(cexec.REPO, 'wasi', 'wasi.c'), os.path.join(cexec.REPO, 'futex', 'futex.c'),
+                                            os.path.join(cexec.REPO, 'futex', 'list.c'), os.path.join(cexec.REPO, 'futex', 'map.c')],
+                                libs=['-lpthread', '-lm'])
     return cexec.build_unit('wasiagent.c', 'wasiagent', AGENT_CMD + WASI_DEFS,
                             extra_args=[os.path.join(cexec.REPO, 'wasi', 'wasi.c'), os.path.join(cexec.REPO, 'futex', 'futex.c'),
                                         os.path.join(cexec.REPO, 'futex', 'list.c'), os.path.join(cexec.REPO, 'futex', 'map.c')],
@@ -44,8 +55,8 @@ def agent_binary():
 class Agent(object):
     """one wasiagent process; stdin/stdout/stderr of the process are the given files (the 'standard streams' under test)"""
 
-    def __init__(self, workdir, stdin_path=None, stdout_path=None, stderr_path=None, pages=64, cwd=None):
-        exe = agent_binary()
+    def __init__(self, workdir, stdin_path=None, stdout_path=None, stderr_path=None, pages=64, cwd=None, variant='default'):
+        exe = agent_binary(variant)
         self.workdir = workdir
         c_r, p_w = os.pipe()       # parent -> child
         p_r, c_w = os.pipe()       # child -> parent
